@@ -1,6 +1,8 @@
 import Driver.Proto
 import Driver.C09
 import IronCalc.Generated.ParenMove
+import Driver.C18
+import Driver.C19
 import Driver.C21
 import Driver.C12
 import Driver.C22
@@ -20,6 +22,8 @@ def dispatch (fs : List String) : String :=
   match fs with
   | "c09" :: rest => Driver.c09 IronCalc.Generated.parenStringify rest
   | "c16" :: rest => Driver.c09 IronCalc.Generated.parenMove rest
+  | "c18" :: rest => Driver.c18 rest
+  | "c19" :: rest => Driver.c19 rest
   | "c21" :: rest => Driver.c21 rest
   | "c12" :: rest => Driver.c12 rest
   | "c22" :: rest => Driver.c22 rest
